@@ -94,6 +94,29 @@ func runC09(c *Ctx) {
 			d := c09Discharge(c, facts(), s, via)
 			key := c09Key(s)
 			if !d.OK && isNewHelper(s.Fn) {
+				// a site inside a new helper is judged where the helper is used: with the facts
+				// and the argument terms of every known function that reaches it
+				roots := knownRootsOf(s.Fn)
+				all := len(roots) > 0
+				how := ""
+				nCtx := 0
+				for _, r := range roots {
+					for _, ch := range helperChains(r, s.Fn) {
+						nCtx++
+						dr := c09Discharge(c, factsOfConv(r).withChain(ch), s, via)
+						if !dr.OK {
+							all = false
+							break
+						}
+						how = dr.How
+					}
+				}
+				all = all && nCtx > 0
+				if all {
+					d = Discharge{true, "in the context of each caller (" + fmt.Sprint(len(roots)) + "): " + how, ""}
+				}
+			}
+			if !d.OK && isNewHelper(s.Fn) {
 				// a site that moved into a new helper: it is the reviewed site of each function
 				// that calls the helper, read with that call's arguments
 				if ok, how, rows := c09ViaCallers(p, s, via); ok {
